@@ -725,7 +725,7 @@ Proof.
   intros ns' r s Hr' G. cbn beta in *.
   destruct (str_eqb ns ns'); cbn [andb] in *; [|discriminate].
   destruct (room_eqb room PNone) eqn:E4; [|discriminate].
-  apply room_spec in E4; auto using room_ok_None. contradiction.
+  apply room_spec in E4; [contradiction|exact Hr|exact room_ok_None].
 Qed.
 
 (* ---- folds of leave_room (basic_close_room, basic_disconnect) ---- *)
@@ -806,7 +806,7 @@ Proof.
   split; [exact HS1|]. eapply sem_remove; eauto.
   intros ns' r s Hr' G. cbn beta in *.
   destruct (str_eqb ns ns'); cbn [andb] in *; [|discriminate].
-  apply room_spec in G; auto using room_ok_None. contradiction.
+  apply room_spec in G; [contradiction|exact Hr|exact room_ok_None].
 Qed.
 
 (* ---- mgr_disconnect ---- *)
@@ -887,8 +887,7 @@ Proof.
   split; [|split; [exact E|split; [intros _; rewrite Ec, Hc1; reflexivity|discriminate]]].
   split.
   - destruct HS1 as (A & B & C). unfold Struct. rewrite Er. repeat split; auto.
-    apply Ep. exact C.
-  - eapply sem_remove; eauto. intros ns' r s _ G. exact G.
+  - eapply sem_remove; eauto.
 Qed.
 
 (* ---- operations that do not touch the rooms ---- *)
@@ -913,4 +912,210 @@ Proof.
   destruct (i <=? 0)%Z; [exact H|].
   destruct (aget N.eqb (cb_entries slot) (Z.to_N i)); [|exact H].
   cbn [fst]. eapply WF_ext; [| |exact H]; cbn [rooms pending]; [reflexivity|exact Hp].
+Qed.
+
+(* ================================================================== *)
+(* 4. histories: WF after every sequence of manager operations         *)
+(* ================================================================== *)
+Inductive mop :=
+| MConnect (eio ns sid : str)          (* sid = the id drawn from the generator *)
+| MEnter (sid ns : str) (room : pv)
+| MLeave (sid ns : str) (room : pv)
+| MClose (room : pv) (ns : str)
+| MDisconnect (sid ns : str)
+| MPreDisconnect (sid ns : str)
+| MGenAck (sid : str) (cb : N)
+| MTrigger (sid : option str) (id : option Z).
+
+Definition mstep (m : mgr) (o : mop) : mgr :=
+  match o with
+  | MConnect eio ns sid => fst (mgr_connect m eio ns sid)
+  | MEnter sid ns room => fst (enter_room m sid ns room)
+  | MLeave sid ns room => leave_room m sid ns room
+  | MClose room ns => close_room m room ns
+  | MDisconnect sid ns => mgr_disconnect m sid ns
+  | MPreDisconnect sid ns => fst (pre_disconnect m sid ns)
+  | MGenAck sid cb => fst (generate_ack_id m sid cb)
+  | MTrigger sid id => fst (trigger_callback m sid id)
+  end.
+
+(* application-visible room names: in the domain and not None *)
+Definition name_ok (r : pv) : Prop := room_ok r /\ r <> PNone.
+Definition op_ok (o : mop) : Prop :=
+  match o with
+  | MConnect _ _ sid => sid <> []
+  | MEnter _ _ r | MLeave _ _ r | MClose r _ => name_ok r
+  | _ => True
+  end.
+Definition connect_sids (ops : list mop) : list str :=
+  flat_map (fun o => match o with MConnect _ _ sid => [sid] | _ => [] end) ops.
+
+Lemma rooms_pre_disconnect m sid ns : rooms (fst (pre_disconnect m sid ns)) = rooms m.
+Proof. unfold pre_disconnect. destruct (room_of m ns PNone); reflexivity. Qed.
+Lemma rooms_generate_ack_id m sid cb : rooms (fst (generate_ack_id m sid cb)) = rooms m.
+Proof. unfold generate_ack_id. destruct (cb_counter _); reflexivity. Qed.
+Lemma rooms_trigger_callback m sid id : rooms (fst (trigger_callback m sid id)) = rooms m.
+Proof.
+  unfold trigger_callback. destruct sid as [s|]; [|reflexivity]. destruct id as [i|]; [|reflexivity].
+  destruct (aget str_eqb (callbacks m) s) as [slot|]; [|reflexivity].
+  destruct (i <=? 0)%Z; [reflexivity|].
+  destruct (aget N.eqb (cb_entries slot) (Z.to_N i)); reflexivity.
+Qed.
+
+Lemma mstep_inv m o :
+  WF m -> op_ok o -> (forall eio ns sid, o = MConnect eio ns sid -> fresh_sid m sid) ->
+  WF (mstep m o) /\
+  forall ns s e, mem (mstep m o) ns PNone s = Some e ->
+    (exists e', mem m ns PNone s = Some e') \/ (exists eio ns0, o = MConnect eio ns0 s).
+Proof.
+  intros HW Hok Hfr. destruct o; cbn [mstep op_ok] in *.
+  - destruct (mgr_connect m eio ns sid) as [m' r] eqn:E.
+    destruct (mgr_connect_spec _ _ _ _ _ _ HW (Hfr _ _ _ eq_refl) E) as (HW' & _ & _ & Hr).
+    cbn [fst]. split; [exact HW'|]. intros ns' s e H. destruct r as [s0|].
+    + destruct Hr as (_ & _ & Heq). rewrite Heq in H by apply room_ok_None.
+      destruct (str_eqb ns ns' && str_eqb sid s) eqn:C; cbn [andb] in H.
+      * right. apply andb_true_iff in C as [_ C]. apply str_eqb_eq in C. subst. eauto.
+      * left; eauto.
+    + destruct Hr as [Hs _]. rewrite Hs in H by apply room_ok_None. left; eauto.
+  - destruct (enter_room m sid ns room) as [m' res] eqn:E. destruct Hok as [Hr Hn].
+    destruct (enter_room_spec _ _ _ _ _ _ HW Hr E) as (HW' & _ & _ & Hres).
+    cbn [fst]. split; [exact HW'|]. intros ns' s e H. destruct res.
+    + destruct Hres as (eio & H0 & Hi). rewrite Hi in H by apply room_ok_None.
+      destruct (str_eqb ns ns' && room_eqb room PNone && str_eqb sid s) eqn:C.
+      * apply cond3_true in C as (-> & _ & ->); auto using room_ok_None. left; eauto.
+      * left; eauto.
+    + destruct Hres as [-> _]. left; eauto.
+  - destruct Hok as [Hr Hn]. split; [apply leave_room_wf; assumption|].
+    destruct (leave_room_spec m sid ns room (proj1 HW) Hr) as (_ & _ & _ & E).
+    intros ns' s e H. rewrite E in H by apply room_ok_None.
+    destruct (str_eqb ns ns' && room_eqb room PNone && str_eqb sid s); [discriminate|left; eauto].
+  - destruct Hok as [Hr Hn]. split; [apply close_room_wf; assumption|].
+    destruct (close_room_eq m room ns (proj1 HW) Hr) as (_ & _ & _ & E).
+    intros ns' s e H. rewrite E in H by apply room_ok_None.
+    destruct (str_eqb ns ns' && room_eqb room PNone); [discriminate|left; eauto].
+  - destruct (mgr_disconnect_spec m sid ns HW) as (HW' & E & _). split; [exact HW'|].
+    intros ns' s e H. rewrite E in H by apply room_ok_None.
+    destruct (str_eqb ns ns' && str_eqb sid s); [discriminate|left; eauto].
+  - split; [apply pre_disconnect_wf; exact HW|]. intros ns' s e H.
+    rewrite (mem_ext _ _ (rooms_pre_disconnect m sid ns)) in H. left; eauto.
+  - split; [apply generate_ack_id_wf; exact HW|]. intros ns' s e H.
+    rewrite (mem_ext _ _ (rooms_generate_ack_id m sid cb)) in H. left; eauto.
+  - split; [apply trigger_callback_wf; exact HW|]. intros ns' s e H.
+    rewrite (mem_ext _ _ (rooms_trigger_callback m sid id)) in H. left; eauto.
+Qed.
+
+Lemma nodup_app_disj {A} (l1 l2 : list A) x : NoDup (l1 ++ l2) -> In x l1 -> ~ In x l2.
+Proof.
+  induction l1 as [|y l1 IH]; cbn [app]; [intros _ []|].
+  intros H [->|Hi] H2; inversion H; subst.
+  - apply H3. apply in_or_app. right; exact H2.
+  - exact (IH H4 Hi H2).
+Qed.
+
+Lemma nodup_app_r {A} (l1 l2 : list A) : NoDup (l1 ++ l2) -> NoDup l2.
+Proof. induction l1 as [|y l1 IH]; cbn [app]; [auto|]. intro H; inversion H; auto. Qed.
+Lemma nodup_app_l {A} (l1 l2 : list A) : NoDup (l1 ++ l2) -> NoDup l1.
+Proof.
+  induction l1 as [|y l1 IH]; cbn [app]; [constructor|]. intro H; inversion H; subst.
+  constructor; [|auto]. intro Hi. apply H2. apply in_or_app. left; exact Hi.
+Qed.
+
+Lemma C03_wf_gen ops : forall m used,
+  WF m -> (forall ns s e, mem m ns PNone s = Some e -> In s used) ->
+  Forall op_ok ops -> NoDup (connect_sids ops) ->
+  (forall s, In s used -> ~ In s (connect_sids ops)) ->
+  WF (fold_left mstep ops m).
+Proof.
+  induction ops as [|a ops IH]; intros m used HW Hk Hok Hnd Hdis; cbn [fold_left]; [exact HW|].
+  inversion Hok as [|? ? Ha Hok']; subst.
+  assert (Hcs : connect_sids (a :: ops) = connect_sids [a] ++ connect_sids ops).
+  { unfold connect_sids. cbn [flat_map]. rewrite app_nil_r. reflexivity. }
+  assert (Hfr : forall eio ns sid, a = MConnect eio ns sid -> fresh_sid m sid).
+  { intros eio ns sid ->. split; [exact Ha|]. intros ns'.
+    destruct (mem m ns' PNone sid) as [e|] eqn:E; [|reflexivity]. exfalso.
+    apply (Hdis sid); [eapply Hk; eauto|]. rewrite Hcs. left; reflexivity. }
+  destruct (mstep_inv m a HW Ha Hfr) as [HW1 Hk1].
+  apply (IH _ (connect_sids [a] ++ used)); auto.
+  - intros ns s e H. apply in_or_app. destruct (Hk1 _ _ _ H) as [[e' He']|(eio & ns0 & ->)].
+    + right. eapply Hk; eauto.
+    + left. left; reflexivity.
+  - rewrite Hcs in Hnd. eapply nodup_app_r; eauto.
+  - intros s Hs. apply in_app_or in Hs as [Hs|Hs].
+    + rewrite Hcs in Hnd. eapply nodup_app_disj; eauto.
+    + intro Hc. apply (Hdis s Hs). rewrite Hcs. apply in_or_app. right; exact Hc.
+Qed.
+
+(* C03_wf: the invariant holds after every history whose generated sids are pairwise
+   distinct and non-empty and whose room names are in the domain *)
+Theorem C03_wf_thm ops :
+  Forall op_ok ops -> NoDup (connect_sids ops) -> WF (fold_left mstep ops mgr_init).
+Proof.
+  intros Hok Hnd. apply (C03_wf_gen ops mgr_init []); auto using WF_init.
+  intros ns s e H. discriminate H.
+Qed.
+
+(* ---- a non-trivial history: two namespaces, three transports, shared rooms, a room
+   named like a session id, a leave, a close and a disconnect ---- *)
+Definition x_ns1 : str := s2l "/".
+Definition x_ns2 : str := s2l "/chat".
+Definition x_ops : list mop :=
+  [ MConnect (s2l "e1") x_ns1 (s2l "S1"); MConnect (s2l "e2") x_ns1 (s2l "S2");
+    MConnect (s2l "e3") x_ns1 (s2l "S3"); MConnect (s2l "e1") x_ns2 (s2l "S4");
+    MConnect (s2l "e2") x_ns2 (s2l "S5");
+    MEnter (s2l "S1") x_ns1 (PStr (s2l "room")); MEnter (s2l "S2") x_ns1 (PStr (s2l "room"));
+    MEnter (s2l "S2") x_ns1 (PInt 7); MEnter (s2l "S3") x_ns1 (PInt 7);
+    MEnter (s2l "S3") x_ns1 (PStr (s2l "S1"));         (* a room named like S1's session id *)
+    MEnter (s2l "S4") x_ns2 (PStr (s2l "room")); MEnter (s2l "S5") x_ns2 (PStr (s2l "room"));
+    MGenAck (s2l "S1") 11; MGenAck (s2l "S1") 12; MGenAck (s2l "S4") 13;
+    MTrigger (Some (s2l "S1")) (Some 1%Z) ].
+Definition x_mgr : mgr := fold_left mstep x_ops mgr_init.
+Definition x_ops2 : list mop :=
+  x_ops ++ [ MLeave (s2l "S2") x_ns1 (PStr (s2l "room")); MClose (PInt 7) x_ns1;
+             MPreDisconnect (s2l "S5") x_ns2; MDisconnect (s2l "S5") x_ns2 ].
+
+Ltac solve_ops_ok :=
+  repeat (apply Forall_cons; [first [exact I | discriminate | (split; [reflexivity|discriminate])]|]);
+  apply Forall_nil.
+Ltac solve_nodup_str :=
+  repeat (apply NoDup_cons; [cbn [In]; intuition discriminate|]); apply NoDup_nil.
+
+Example x_ops_ok : Forall op_ok x_ops2 /\ NoDup (connect_sids x_ops2).
+Proof. split; [solve_ops_ok|cbn; solve_nodup_str]. Qed.
+Example C03_wf_example : WF x_mgr /\ WF (fold_left mstep x_ops2 mgr_init).
+Proof.
+  destruct x_ops_ok as [H1 H2]. split; [|apply C03_wf_thm; assumption].
+  apply C03_wf_thm.
+  - unfold x_ops2 in H1. apply Forall_app in H1. apply H1.
+  - unfold x_ops2, connect_sids in H2. rewrite flat_map_app in H2.
+    eapply nodup_app_l. exact H2.
+Qed.
+Example x_mgr_rooms :
+  map (fun nr => (fst nr, map (fun rb => (fst rb, map fst (snd rb))) (snd nr))) (rooms x_mgr) =
+  [ (x_ns1, [ (PNone, [s2l "S1"; s2l "S2"; s2l "S3"]); (PStr (s2l "S1"), [s2l "S1"; s2l "S3"]);
+              (PStr (s2l "S2"), [s2l "S2"]); (PStr (s2l "S3"), [s2l "S3"]);
+              (PStr (s2l "room"), [s2l "S1"; s2l "S2"]); (PInt 7, [s2l "S2"; s2l "S3"]) ]);
+    (x_ns2, [ (PNone, [s2l "S4"; s2l "S5"]); (PStr (s2l "S4"), [s2l "S4"]);
+              (PStr (s2l "S5"), [s2l "S5"]); (PStr (s2l "room"), [s2l "S4"; s2l "S5"]) ]) ].
+Proof. vm_compute. reflexivity. Qed.
+
+(* ---- preservation of WF, one statement per operation ---- *)
+Lemma mgr_connect_wf m eio ns sid : WF m -> fresh_sid m sid -> WF (fst (mgr_connect m eio ns sid)).
+Proof.
+  intros HW Hf. destruct (mgr_connect m eio ns sid) as [m' r] eqn:E.
+  exact (proj1 (mgr_connect_spec _ _ _ _ _ _ HW Hf E)).
+Qed.
+Lemma enter_room_wf m sid ns room : WF m -> room_ok room -> WF (fst (enter_room m sid ns room)).
+Proof.
+  intros HW Hr. destruct (enter_room m sid ns room) as [m' r] eqn:E.
+  exact (proj1 (enter_room_spec _ _ _ _ _ _ HW Hr E)).
+Qed.
+Lemma mgr_disconnect_wf m sid ns : WF m -> WF (mgr_disconnect m sid ns).
+Proof. intro HW. exact (proj1 (mgr_disconnect_spec m sid ns HW)). Qed.
+(* under WF the ValueDuplicationError branch of basic_enter_room is unreachable *)
+Lemma enter_room_no_dup_error m sid ns room :
+  WF m -> room_ok room -> snd (enter_room m sid ns room) <> Err OtherError.
+Proof.
+  intros HW Hr. destruct (enter_room m sid ns room) as [m' r] eqn:E.
+  destruct (enter_room_spec _ _ _ _ _ _ HW Hr E) as (_ & _ & _ & H). cbn [snd].
+  destruct r as [u|e]; [discriminate|]. destruct H as [_ [[-> _]|[-> _]]]; discriminate.
 Qed.
